@@ -137,6 +137,15 @@ def _scenario(name, flags=(), note=''):
     return f
 
 
+def _keyed(sub, name, flags=()):
+    """scenario replay only for obligations whose key contains `sub` (other clauses of the unit have no replay)"""
+    def f(key, unit, result, build):
+        if sub not in key:
+            return None
+        return (name, [], list(flags), 'fixed scenario exercising the clause')
+    return f
+
+
 ADAPTORS = [
     (r'^hex2uint$', _hex('uint')),
     (r'^hex2int$', _hex('int')),
@@ -151,6 +160,7 @@ ADAPTORS = [
     (r'^Group_read$|^readString$', _scenario('desc_length_signed')),
     (r'^Parameters_write', _scenario('data_start_block')),
     (r'^Header_write$', _scenario('header_write_label')),
+    (r'^c3d_frame_guards$', _keyed('label-order', 'frame_point_order')),
     (r'^c3d_updateHeader$', _scenario('header_frames_after_declare')),
     (r'^c3d_parameter$', _scenario('param_untyped_creates_group')),
     (r'^B_c3d_(point|analog)_frames$', _scenario('column_adder_partial')),
